@@ -28,8 +28,11 @@ ASSUMPTIONS = [
     "theorem list because they were true by definition: C06_update_atomic (initializers.update is an operation of "
     "C06_atomic; its validation is modelled as a dry run, not as the code's pending-names table) and "
     "C06_sort_cycle_no_change (rfl)",
-    "convenience.replace_all_uses_with with several pairs and convenience.replace_nodes_and_values are sequences of "
-    "public calls and are NOT atomic in the code (known findings D82, D83, keyed on the position / sub-step that raised); "
+    "convenience.replace_all_uses_with with several pairs is all-or-nothing since fix D82 (repo c936126): the harness "
+    "probes the real function on every run and compares it with `rauwManyExact` (C06_rauw_many_atomic) - with the "
+    "sequential `rauwMany` when the probe finds the old behaviour; convenience.replace_nodes_and_values is a sequence of "
+    "public calls and NOT atomic in the code (known finding D83, keyed on the sub-step that raised; no small exact fix "
+    "exists: proposed_fixes/D83.md; the partial fix D83-partial.diff has its own model function, selected by a probe); "
     "Tape.initializer (new value, then graph.register_initializer) and Builder.<Op> (node, then output names) are "
     "composites too: a rejected registration leaves the fresh value behind (no pre-existing object changes: the "
     "before/after snapshot is taken over the objects that existed before the call); "
@@ -48,6 +51,7 @@ def run(ctx: Ctx) -> None:
         "oracle fires on every raising call inside it (op=<call>:raised and raisedAt=<call>:k=<position> in "
         "input_distribution)"
     )
+    K.reset_nonterm()
     for obj in load_corpus(PROP):
         K.replay_ops(ctx, PROP, obj["ops"])
     scope = K.run_exhaustive(ctx, PROP, depth=ctx.pick(2, 3), reduced=not ctx.quick)
@@ -56,6 +60,7 @@ def run(ctx: Ctx) -> None:
     ctx.notes.append("directed: " + K.run_sort_scenarios(ctx, PROP))
     ctx.notes.append("directed: " + K.run_position_scenarios(ctx, PROP))
     ctx.notes.append("directed: " + K.run_view_scenarios(ctx, PROP))
+    ctx.notes.append("directed: " + K.run_multiplicity_scenarios(ctx, PROP))
     K.run_random(ctx, PROP, ctx.pick(2000, 40000), ctx.pick(40, 60))
     K.check_alphabet(ctx, PROP)
 
